@@ -113,8 +113,9 @@ func (p *sxParser) parse() (*Sx, error) {
 // Contracts
 
 type Ensures struct {
-	Tag  string
-	Expr *Sx
+	Tag    string
+	Expr   *Sx
+	Define bool // abstraction definition: assumed at call sites, never an obligation (listed as an assumption)
 }
 
 type LoopSpec struct {
@@ -156,6 +157,9 @@ type SpecFn struct {
 	Ret    string   // SMT sort
 	Reads  []string // heap keys
 	Def    *Sx      // optional definition body (non-recursive)
+	// fold: F(args, k) = ite(k<=0, FoldUnit, FoldOp(F(args, k-1), Def[j := k-1])); the last parameter is k. The function
+	// itself is uninterpreted over the heaps in Reads; one unfolding is emitted for every k it is evaluated at.
+	FoldUnit, FoldOp string
 }
 
 type SpecParam struct {
@@ -412,6 +416,16 @@ func (cs *Contracts) parseFile(path, text string) error {
 				return fmt.Errorf("%s: unknown loop clause %q", where, k2)
 			}
 		default:
+			if kw == "define" {
+				es, err := parseSxAll(rest)
+				if err != nil {
+					return fmt.Errorf("%s: %v", where, err)
+				}
+				for _, e := range es {
+					cur.Ensures = append(cur.Ensures, Ensures{Tag: fmt.Sprintf("def%d", len(cur.Ensures)), Expr: e, Define: true})
+				}
+				continue
+			}
 			if strings.HasPrefix(kw, "ensures") {
 				tag := ""
 				if k := strings.Index(kw, "["); k >= 0 {
@@ -493,6 +507,14 @@ func parseSpecDecl(rest string) (*SpecFn, error) {
 			return nil, fmt.Errorf("spec %s: bad body", name)
 		}
 		sf.Def = es[0]
+		tail = strings.TrimSpace(tail[:k])
+	}
+	if k := strings.Index(tail, " fold "); k >= 0 {
+		f := strings.Fields(tail[k+6:])
+		if len(f) != 2 || sf.Def == nil {
+			return nil, fmt.Errorf("spec %s: fold needs a unit, an operator and an element body", name)
+		}
+		sf.FoldUnit, sf.FoldOp = f[0], f[1]
 		tail = strings.TrimSpace(tail[:k])
 	}
 	if strings.HasPrefix(tail, "reads") {
